@@ -73,6 +73,27 @@ func resultVals(ts []Term) val {
 
 // callRepo: modular call of a repository function: pre obligation, result = F_f(args).
 func (e *Exec) callRepo(f *ssa.Function, args []Term, x *ssa.Call) val {
+	if f.Parent() != nil && e.w.contractOf(f) == nil && len(f.FreeVars) == 0 && len(e.w.loopsOf(f).loops) == 0 && e.inlineDepth() < 3 {
+		// a small anonymous function without a contract (a local helper such as `isWildcard := func(...) bool {...}`):
+		// its body is used directly (exact); its own run-time safety is checked when the function itself is verified
+		e.root().inlines++
+		sub := newExec(e.g, e.w, f, fmt.Sprintf("%sin%d_", e.pfx, e.root().inlines))
+		sub.noObl = true
+		sub.depth = e.inlineDepth() + 1
+		sub.run(args)
+		if e.g.unsupported == "" {
+			if res, _ := sub.resultTerms(); true {
+				var out []Term
+				for i, r := range res {
+					out = append(out, e.def(fmt.Sprintf("%s_%d", x.Name(), i), e.g.sortOf(f.Signature.Results().At(i).Type()), r))
+				}
+				if len(out) == 0 {
+					return val{}
+				}
+				return resultVals(out)
+			}
+		}
+	}
 	res := e.g.useCallee(f, args)
 	ct := e.w.contractOf(f)
 	if !e.noObl && e.parent == nil {
@@ -485,3 +506,5 @@ func constString(v ssa.Value) (string, bool) {
 	}
 	return constant.StringVal(c.Value), true
 }
+
+func (e *Exec) inlineDepth() int { return e.depth }
